@@ -244,3 +244,34 @@ Corollary wrapper_verdict_chunking expected allowed cs1 cs2 w1 w2 :
 Proof.
   intros H1 H2 Hall Hc. rewrite (wrapper_verdict _ _ _ _ H1 Hall), (wrapper_verdict _ _ _ _ H2 Hall), Hc. auto.
 Qed.
+
+(* ------------------------------------------------------------------ file-like sources: contents x read sizes *)
+Lemma w_run_stop_all : forall l (w w' : cwrapper) tr cs unused,
+  cw_run_stop w (map InChunk l) = (w', tr, cs, None, unused) -> cs = l.
+Proof.
+  unfold cw_run_stop. induction l as [|a l IH]; intros w w' tr cs unused H; cbn [map] in H.
+  - cbn in H. inversion H. reflexivity.
+  - rewrite w_run_stop_cons in H.
+    destruct (w_step istate eat finish complete cmatch gen_shape w (InChunk a)) as [[w1 tr1] o] eqn:Hs.
+    pose proof (w_step_identity istate eat finish complete cmatch gen_shape _ _ _ _ _ Hs) as Hid.
+    destruct o as [c|e|]; [|discriminate|discriminate].
+    inversion Hid; subst c.
+    destruct (w_run_stop istate eat finish complete cmatch gen_shape w1 (map InChunk l)) as [[[[w2 tr2] cs2] stop2] un2] eqn:Hr.
+    inversion H; subst. f_equal. eapply IH. exact Hr.
+Qed.
+
+(* a reader calling read(size) for each size in turn on a file with the given content, no call raising:
+   this is a read-through of the chunk list [delivered], whose concatenation is the part of the file read *)
+Theorem file_reads_through expected allowed data sizes w' s' tr delivered :
+  cw_run_reads (cw_new expected allowed) {| f_data := data; f_pos := 0; f_closed := false |} sizes = (w', s', tr, delivered, None) ->
+  read_so_far expected allowed delivered w' /\ concat delivered = bsub 0 (f_pos s') data.
+Proof.
+  intros H. unfold cw_run_reads in H.
+  set (s0 := {| f_data := data; f_pos := 0; f_closed := false |}) in *.
+  destruct (run_reads_stop istate eat finish complete cmatch gen_shape sizes (cw_new expected allowed) s0 eq_refl _ _ _ _ _ H) as (un & Hs).
+  pose proof (w_run_stop_all _ _ _ _ _ _ Hs) as Hd.
+  split.
+  - exists tr, un. unfold cw_run_stop. rewrite Hd. rewrite Hd in Hs. exact Hs.
+  - destruct (reads_are_identity_file istate eat finish complete cmatch gen_shape _ _ _ _ _ _ _ _ H) as (_ & _ & Hc).
+    cbn [f_pos f_data s0] in Hc. rewrite app_nil_r in Hc. exact Hc.
+Qed.
